@@ -4,6 +4,7 @@ admissible group sizes, the generators list exactly that many pairs, and the exh
 search evaluates at most that many.
 -/
 import MM.Proofs.Count
+import MM.Proofs.CountSpec
 
 namespace MM.Search
 
@@ -37,5 +38,83 @@ theorem C11_count_eq_spec (p : Params) (e : Env) :
     countMaxDesigns p e = specCount (sizesOk p e) e.cls 0 0 := by
   rw [specCount_eq_opList, opList_eq_opCounts, ← countAux_eq_opCounts, countMaxDesigns_eq_countAux]
   rfl
+
+/-- admissible sizes are positive: both groups non-empty -/
+theorem C11_sizes_pos (p : Params) (e : Env) (t c : Nat) :
+    sizesOk p e t c = true → 1 ≤ t ∧ 1 ≤ c := by
+  intro h
+  simp only [sizesOk, Bool.and_eq_true, List.contains_iff_mem] at h
+  exact ⟨pos_of_mem_trtSizeRange h.1, pos_of_mem_ctlSizes h.2⟩
+
+/-- `specCount` counts the members of the duplicate-free enumeration `specList` of legal pairs
+whose sizes are admissible. -/
+theorem specCount_eq_countP (ok : Nat → Nat → Bool) (cls : List GeoClass) (t c : Nat) :
+    specCount ok cls t c
+      = (specList cls).countP (fun TC => ok (t + TC.1.length) (c + TC.2.length)) := by
+  induction cls generalizing t c with
+  | nil => simp [specCount, specList, List.countP_cons]
+  | cons g rest ih =>
+    cases g <;>
+      simp [specCount, choices, specList, GeoClass.canT, GeoClass.canC, GeoClass.canX,
+        List.countP_append, List.countP_map, Function.comp_def, length_shift, ih,
+        Nat.add_assoc, Nat.add_comm 1]
+
+/-- membership form of (B): the listed pairs are exactly the legal pairs of admissible sizes. -/
+theorem C11_listing_mem (p : Params) (e : Env) (T C : GeoSet) :
+    (T, C) ∈ designsListing p e ↔ Legal e.cls T C ∧ sizesOk p e T.length C.length = true := by
+  rw [mem_designsListing]
+  simp [sizesOk]
+
+/-- (B) the generators list exactly that many pairs, without repetition -/
+theorem C11_listing_nodup (p : Params) (e : Env) : (designsListing p e).Nodup :=
+  nodup_designsListing p e
+
+theorem C11_listing_length (p : Params) (e : Env) :
+    (designsListing p e).length = countMaxDesigns p e := by
+  rw [C11_count_eq_spec, specCount_eq_countP, List.countP_eq_length_filter]
+  apply List.Perm.length_eq
+  rw [List.perm_ext_iff_of_nodup (nodup_designsListing p e) ((nodup_specList _).filter _)]
+  rintro ⟨T, C⟩
+  rw [C11_listing_mem, List.mem_filter, mem_specList]
+  simp
+
+/-- (C) upper bound on what the exhaustive search evaluates -/
+theorem C11_upper_bound (p : Params) (e : Env) :
+    (evaluatedRaw p e).length ≤ countMaxDesigns p e := by
+  rw [← C11_listing_length]
+  exact evaluatedRaw_length_le p e
+
+/-! ### non-vacuity: both sides evaluated on a concrete six-geo class list -/
+
+/-- one fixed treatment geo, one ct, two ctx, one cx, one tx geo; shares 1, 2, …, 6. -/
+def exEnv : Env :=
+  { cls := [.tFixed, .ct, .ctx, .cx, .tx, .ctx], share := fun i => (i : Rat) + 1,
+    optImpact := fun _ => .nan, impact := fun _ _ => .nan, score5 := fun _ _ => [],
+    invImpact := fun _ _ => none, budgetInv := fun _ _ => none }
+
+/-- size ranges only (integer arithmetic, plain `decide`). -/
+def exParams : Params := { trtRange := some (2, 3), ctlRange := some (1, 3) }
+
+/-- size ranges, geo-ratio tolerance and a volume-ratio tolerance (rational arithmetic). -/
+def exParams2 : Params :=
+  { trtRange := some (1, 4), ctlRange := some (1, 4), geoTol := some (1/2), volTol := some (1/2) }
+
+example : countMaxDesigns exParams exEnv = 45 := by decide
+example : specCount (sizesOk exParams exEnv) exEnv.cls 0 0 = 45 := by decide
+example : (designsListing exParams exEnv).length = 45 := by decide
+example : (evaluatedRaw exParams exEnv).length = 45 := by decide
+/-- without any user range the count is 64 (of the 2·3·3·2·2 = 72 assignments). -/
+example : countMaxDesigns {} exEnv = 64 ∧ specCount (fun _ _ => true) exEnv.cls 0 0 = 72 := by
+  decide
+
+example : countMaxDesigns exParams2 exEnv = 30 := by decide +kernel
+example : specCount (sizesOk exParams2 exEnv) exEnv.cls 0 0 = 30 := by decide +kernel
+example : (designsListing exParams2 exEnv).length = 30 := by decide +kernel
+/-- the bound (C) can be strict: the volume-ratio test discards listed pairs. -/
+example : (evaluatedRaw exParams2 exEnv).length = 16 := by decide +kernel
+example : (designsListing exParams2 exEnv).take 3 = [([0], [1]), ([0, 1], [2, 3]), ([0, 1], [2, 5])] := by
+  decide +kernel
+example : sizesOk exParams2 exEnv 2 3 = true ∧ sizesOk exParams2 exEnv 2 4 = false := by
+  decide +kernel
 
 end MM.Search
